@@ -127,6 +127,10 @@ int32_t jls_buf_string_save(struct jls_buf_s * self, const char * cstr_in, char 
     }
     size_t sz = strlen(cstr_in) + 1;
     struct jls_buf_strings_s * s = self->strings_tail;
+    if (sz > (sizeof(s->buffer) - 1)) {
+        JLS_LOGE("string too long: %zu", sz);
+        return JLS_ERROR_TOO_BIG;  // cannot fit in any string block
+    }
     char * buf_end = s->buffer + sizeof(s->buffer) - 1;
     if ((size_t) (buf_end - s->cur) < sz) {
         ROE(strings_alloc(self));
@@ -276,13 +280,19 @@ int32_t jls_buf_rd_str(struct jls_buf_s * self, const char ** value) {
     char ch;
     while (self->cur != self->end) {
         if (s->cur >= buf_end) {
+            size_t partial = (size_t) (s->cur - str);
+            if (str == s->buffer) {
+                JLS_LOGE("string too long");
+                *value = NULL;
+                return JLS_ERROR_TOO_BIG;  // cannot fit in any string block
+            }
             ROE(strings_alloc(self));
             // copy over partial.
-            while (str <= buf_end) {
-                *self->strings_tail->cur++ = *str++;
-            }
+            memcpy(self->strings_tail->buffer, str, partial);
+            self->strings_tail->cur = self->strings_tail->buffer + partial;
             s = self->strings_tail;
             str = self->strings_tail->buffer;
+            buf_end = s->buffer + sizeof(s->buffer) - 1;
         }
 
         ch = (char) *self->cur++;
